@@ -99,7 +99,7 @@ REGISTRY["C04"] = {
                    "and data-object conditions, a (true / false) condition on the default flow itself, permuted declaration order, sequential/concurrent arrival "
                    "and a funnel topology (2-3 incoming flows, up to 6 tokens at once). Oracle: per token exactly one downstream "
                    "request - first true condition in listing order, else default - otherwise no flow and one ExclusiveNoEffectiveSequenceFlows error "
-                   "trace per token naming the gateway; trace-level flow count at the gateway; completion iff a route existed."),
+                   "trace per token naming the gateway; trace-level flow count at the gateway; completion iff a route existed. Conditions that cannot be evaluated to a boolean (unknown variable, non-boolean result, foreign syntax) appear at random listing positions: they are not true, the flows listed after them are still considered."),
     "level_note": "Trusted: the 20-line routing rule in props/c04 (first true in listing order, else default), quiescence detector, schema.Parse. XPath getDataObject is excluded (the repository's own test for it is skipped as not working).",
     "technique": "bounded-exhaustive enumeration + rapid property test against an explicit routing oracle, burst (concurrent) arrivals",
     "rule": ("start -> (fork ->) k upstream tasks -> exclusive gateway -> one task per outgoing flow -> end. Distinct = descriptor (conditions, default position, truth "
